@@ -1041,13 +1041,18 @@ func (x *Exec) frameGoals(st *State, only map[string]bool) ([]frameGoal, bool) {
 			out = append(out, frameGoal{k, "allocates", "(forall ((x Int)) (! " + or(alts...) + " :pattern ((select " + now + " x))))"})
 			continue
 		}
-		if k == "next" || k == "Held" || k == "Owned" || k == "Calls" || k == "Spawns" || k == "Frozen" || strings.HasPrefix(bare, "armed$") || strings.HasPrefix(bare, "IterVis$") {
+		// (Held is framed like a heap: a function returns with the locks it was entered with, unless its contract says
+		// `modifies held(m)` - a forgotten Unlock is a frame violation)
+		if k == "next" || k == "Owned" || k == "Calls" || k == "Spawns" || k == "Frozen" || strings.HasPrefix(bare, "armed$") || strings.HasPrefix(bare, "IterVis$") {
 			continue
 		}
 		if allowedWhole[k] {
 			continue
 		}
 		now, before := vc.get(st, k), vc.get(entry, k)
+		if k == "Held" && x.entry0 != nil {
+			before = vc.get(x.entry0, k) // the lock state is compared with the true entry, not with the acquisition snapshot
+		}
 		if now == before {
 			continue
 		}
